@@ -45,6 +45,34 @@ extern "C" void harness() {
   VASSERT(sum == totalArea && g.totalCapacity() == totalArea, "the bins account for all free area");
   __verif_cover("end");
 }
+#elif defined(H16F)
+// H16F: DensityGrid::fromIspdCircuit on rows cut by two fixed macros at symbolic places (left part, channel between the macros,
+// right part): the grid accounts exactly for the free row area AFTER the side margin (segments not wider than twice the margin are
+// dropped entirely), and no bin has a negative capacity.
+extern "C" void harness() {
+  Circuit c(3);                    // cell 0 movable (sets the standard cell height 10), cells 1 and 2 fixed macros over the rows
+  int m = __verif_nondet_int(0, 25), w = __verif_nondet_int(1, 12), gap = __verif_nondet_int(0, 22);
+  const int W = 70, WB = 6;
+  __verif_assume(m + w + gap + WB <= W);
+  int two = __verif_choice(2);     // one row, or two rows (the macros cover both)
+  c.setCellWidth({4, w, WB}); c.setCellHeight({10, 20, 20}); c.setCellX({0, m, m + w + gap}); c.setCellY({0, 0, 0});
+  c.setCellIsFixed({false, true, true}); c.setCellIsObstruction({true, true, true});
+  c.setupRows(Rectangle(0, W, 0, two ? 20 : 10), 10);
+  DensityGrid g = DensityGrid::fromIspdCircuit(c, 1.0f, 0.5f);     // bins of one cell height, margin 5 on each side of a segment
+  __verif_cover("grid built");
+  const int margin = 5;
+  long long seg[3] = {m, gap, W - (m + w + gap + WB)};             // widths of the free segments
+  long long per = 0;
+  for (int k = 0; k < 3; ++k) if (seg[k] > 2 * margin) per += (seg[k] - 2 * margin) * 10;
+  long long expect = per * (two ? 2 : 1);
+  long long sum = 0;
+  for (int i = 0; i < g.nbBinsX(); ++i) for (int j = 0; j < g.nbBinsY(); ++j) {
+    VASSERT(g.binCapacity(i, j) >= 0, "no bin has a negative capacity");
+    sum += g.binCapacity(i, j);
+  }
+  VASSERT(sum == expect && g.totalCapacity() == expect, "the bins account for the free row area after the side margin");
+  __verif_cover("end");
+}
 #elif defined(H16B)
 // HierarchicalDensityPlacement: arbitrary sequences of refine / coarsen / redistribution inside a bin group
 #ifndef NOPS
